@@ -12,6 +12,18 @@ from .common import cfg_of, recv_name
 
 # ------------------------------------------------------------------ R1
 def r1_filter_feeds_rank(ctx):
+    from . import sortexec
+    from .common import run_fallback
+
+    n0 = len(ctx.obs)
+    try:
+        sortexec.law(ctx, "only-applicable", "layers")
+    except AnalysisError as e:
+        del ctx.obs[n0:]
+        run_fallback(ctx, _r1_filter_feeds_rank_shape, e, "layer sorter")
+
+
+def _r1_filter_feeds_rank_shape(ctx):
     repo = ctx.repo
     f = A.layer_sorter(repo)
     sc = A.subclasscheck_fn(repo)
